@@ -469,6 +469,8 @@ pub fn search(prop: &str, seed: u64, first: u64, n: u64, thorough: bool) -> Sear
         "C14" => crate::search2::search_c14(seed, first, (n / 40).max(20), thorough),
         "C17" => crate::search2::search_c17(seed, first, n),
         "C20" => crate::search2::search_c20(seed, first, n / 4),
+        "C02" | "C03" | "C04" | "C05" => crate::search3::search_sim(prop, seed, first, (n / 200).max(8), thorough),
+        "C18" => crate::search3::search_sim(prop, seed, first, (n / 40).max(50), thorough),
         _ => search_trace(prop, seed, first, n),
     }
 }
@@ -481,6 +483,7 @@ pub fn replay(prop: &str, case: &SearchCase) -> Vec<Finding> {
         }
         "same-view" | "self-reapply" | "exchange" => check_c01(case).into_iter().collect(),
         "c14-rounds" => crate::search2::check_c14(case).into_iter().collect(),
+        c if c.starts_with("sim:") => crate::search3::replay_sim(case).into_iter().collect(),
         "c20" => crate::search2::check_c20(case, &mut crate::driver::Driver::spawn().ok()).into_iter().collect(),
         "c13-inorder" | "c13-random" => crate::search2::check_c13(case).into_iter().collect(),
         c if c.starts_with("c17-twin") => crate::search2::check_c17(case).into_iter().collect(),
